@@ -88,3 +88,11 @@ Proof.
   split; [intros l; apply Permutation_sym, Permutation_rev|].
   vm_compute. repeat split.
 Qed.
+
+(* Contrast: the INTERNAL string hash (String.Hash -> hashString) does take the
+   per-process seed for strings of 12 bytes or more -- which is why the table
+   theorem quantifies over the hash function -- while short strings use FNV. *)
+Example internal_hash_is_seeded :
+  internal_hash (fun _ => 1%Z) (k 1) <> internal_hash (fun _ => 2%Z) (k 1) /\
+  internal_hash (fun _ => 1%Z) [104%N; 105%N] = internal_hash (fun _ => 2%Z) [104%N; 105%N].
+Proof. vm_compute. split; [discriminate | reflexivity]. Qed.
